@@ -89,6 +89,9 @@ func replicaExecute(adb *account.AccountDB, block *types.Block, situation string
 			delete(context, "contractAddress")
 			receipt.ContractAddress = ca.(common.Address)
 		}
+		if gasUsed := context["gasUsed"]; gasUsed != nil && common.IsProposal015() {
+			receipt.GasUsed = gasUsed.(uint64)
+		}
 		receipt.TxHash = transaction.Hash
 		receipts = append(receipts, receipt)
 		i++
